@@ -164,8 +164,23 @@ func runC10(r *Report, rng *rand.Rand, thorough bool) {
 	if thorough {
 		nPairs = 4000
 	}
-	for i := 0; i < nPairs; i++ {
-		a, b := genLeaf(rng), genLeaf(rng)
+	// members of primitive type: every ordered pair of (type, format) over the JSON types, first
+	type tf struct{ t, f string }
+	prims := []tf{{"string", ""}, {"string", "date"}, {"integer", ""}, {"integer", "int64"}, {"number", ""}, {"number", "double"}, {"boolean", ""}, {"array", ""}, {"object", ""}}
+	var primPairs [][2]mleaf
+	for _, x := range prims {
+		for _, y := range prims {
+			primPairs = append(primPairs, [2]mleaf{{Type: x.t, Format: x.f, Props: map[string]string{}}, {Type: y.t, Format: y.f, Props: map[string]string{}}})
+		}
+	}
+	for i := 0; i < nPairs+len(primPairs); i++ {
+		var a, b mleaf
+		if i < len(primPairs) {
+			a, b = primPairs[i][0], primPairs[i][1]
+			r.Dist["merge2=primitive-members"]++
+		} else {
+			a, b = genLeaf(rng), genLeaf(rng)
+		}
 		res, err := codegen.VerifMergeOpenapiSchemas(a.schema(), b.schema(), true)
 		obs := "None"
 		replay := map[string]any{"a": a, "b": b}
@@ -414,6 +429,42 @@ func runC10(r *Report, rng *rand.Rand, thorough bool) {
 				if fs != fieldSets[0] {
 					r.Violate("allof_order_dependent", fmt.Sprintf("members %v: different fields for different orders", members), map[string]any{"members": members})
 					break
+				}
+			}
+		}
+	}
+	// ---- end to end: members that disagree on type or format are rejected, in either order, referenced or inline
+	for _, x := range prims {
+		for _, y := range prims {
+			if x == y || x.t == "object" || y.t == "object" || x.t == "array" || y.t == "array" {
+				continue
+			}
+			sch := func(v tf) map[string]any {
+				m := map[string]any{"type": v.t}
+				if v.f != "" {
+					m["format"] = v.f
+				}
+				return m
+			}
+			for _, inline := range []bool{false, true} {
+				comps := map[string]any{"A": sch(x), "B": sch(y)}
+				allOf := []any{map[string]any{"$ref": "#/components/schemas/A"}, map[string]any{"$ref": "#/components/schemas/B"}}
+				if inline {
+					allOf = []any{sch(x), sch(y)}
+				}
+				comps["Amount"] = map[string]any{"allOf": allOf}
+				spec, _ := json.Marshal(map[string]any{"openapi": "3.0.3", "info": map[string]any{"title": "m", "version": "1"}, "paths": map[string]any{}, "components": map[string]any{"schemas": comps}})
+				cfg := codegen.Configuration{PackageName: "gen", Generate: codegen.GenerateOptions{Models: true}}
+				cfg.OutputOptions.SkipPrune = true
+				r.Count(fmt.Sprintf("allof-disagree/%v/%v/%v", x, y, inline), true)
+				r.Dist["allof=members-disagree-on-type-or-format"]++
+				code, err := generate(spec, cfg)
+				if err == nil {
+					decl := ""
+					if m := regexp.MustCompile(`(?m)^type Amount .*$`).FindString(code); m != "" {
+						decl = m
+					}
+					r.Violate("merge_silently_resolves_type_conflict", fmt.Sprintf("allOf of %s/%q and %s/%q (inline=%v) is accepted: %s", x.t, x.f, y.t, y.f, inline, decl), map[string]any{"spec": json.RawMessage(spec)})
 				}
 			}
 		}
